@@ -170,6 +170,13 @@ def ceval(t: Term, mods):
         # TABLE[i] for a literal table and a determined index
         i = ceval(t[2], mods)
         base = strip(t[1])
+        if isinstance(i, int) and not isinstance(i, bool) and base[0] == "sub":
+            # TABLE[j][i] for a table of byte strings
+            j = ceval(base[2], mods)
+            tb = strip(base[1])
+            if isinstance(j, int) and not isinstance(j, bool) and is_const(tb) and isinstance(tb[1], (tuple, list)) and -len(tb[1]) <= j < len(tb[1]) \
+                    and isinstance(tb[1][j], (bytes, tuple, list)) and -len(tb[1][j]) <= i < len(tb[1][j]) and isinstance(tb[1][j][i], int):
+                return tb[1][j][i]
         if isinstance(i, int) and not isinstance(i, bool):
             if is_const(base) and isinstance(base[1], (tuple, list, bytes)) and -len(base[1]) <= i < len(base[1]) and isinstance(base[1][i], int):
                 return base[1][i]
